@@ -262,14 +262,37 @@ func (c *TermCtx) Mk(op string, sort Sort, args ...*Term) *Term {
 				return c.Mk("=", SBool, inner, c.Const(inner.sort, b.cval))
 			}
 		}
-	case "bvadd", "bvor", "bvxor":
+	case "bvadd":
+		// canonical form: constant first; nested constants folded
+		if args[1].IsConst() && !args[0].IsConst() {
+			args = []*Term{args[1], args[0]}
+		}
+		if args[0].IsConst() {
+			if args[0].cval == 0 {
+				return args[1]
+			}
+			if in := args[1]; in.op == "bvadd" && in.args[0].IsConst() {
+				return c.Mk("bvadd", sort, c.Const(sort, args[0].cval+in.args[0].cval), in.args[1])
+			}
+		}
+	case "bvor", "bvxor":
 		if args[0].IsConst() && args[0].cval == 0 {
 			return args[1]
 		}
 		if args[1].IsConst() && args[1].cval == 0 {
 			return args[0]
 		}
-	case "bvsub", "bvshl", "bvlshr", "bvashr":
+	case "bvsub":
+		if args[1].IsConst() {
+			if args[1].cval == 0 {
+				return args[0]
+			}
+			return c.Mk("bvadd", sort, c.Const(sort, -args[1].cval), args[0])
+		}
+		if args[0] == args[1] {
+			return c.Const(sort, 0)
+		}
+	case "bvshl", "bvlshr", "bvashr":
 		if args[1].IsConst() && args[1].cval == 0 {
 			return args[0]
 		}
